@@ -148,7 +148,9 @@ func (c *c20Chain) buildBlock(h int64) []*wire.MsgTx {
 	for i := range txs {
 		tx := wire.NewMsgTx(2)
 		tx.LockTime = uint32(h*1000) + uint32(i)
-		nout := 1
+		// every transaction has several outputs; the ones no scid was programmed
+		// for are ordinary unspent outputs with some other script
+		nout := 6
 		for s := range c.outs {
 			id := lnwire.NewShortChanIDFromInt(s)
 			if int64(id.BlockHeight) == h && int(id.TxIndex) == i && !c.shortTx[s] &&
@@ -199,24 +201,51 @@ func (c *c20Chain) GetUtxo(op *wire.OutPoint, _ []byte, _ uint32,
 
 	c.mu.Lock()
 	defer c.mu.Unlock()
-	for s, o := range c.outs {
-		id := lnwire.NewShortChanIDFromInt(s)
-		if uint32(id.TxPosition) != op.Index {
+	// answer per outpoint (txid:index): find the transaction, then the output
+	for h := range c.known {
+		if c.noBlock[h] || c.fetchErr[h] {
 			continue
 		}
-		txs := c.buildBlock(int64(id.BlockHeight))
-		if int(id.TxIndex) >= len(txs) || txs[id.TxIndex].TxHash() != op.Hash {
-			continue
+		for ti, tx := range c.buildBlock(h) {
+			if tx.TxHash() != op.Hash {
+				continue
+			}
+			if int(op.Index) >= len(tx.TxOut) {
+				return nil, fmt.Errorf("unknown outpoint")
+			}
+			id := lnwire.ShortChannelID{
+				BlockHeight: uint32(h), TxIndex: uint32(ti), TxPosition: uint16(op.Index),
+			}
+			if o, ok := c.outs[id.ToUint64()]; ok {
+				switch o.spent {
+				case 1:
+					return nil, btcwallet.ErrOutputSpent
+				case 2:
+					return nil, fmt.Errorf("rpc timeout")
+				}
+				return &wire.TxOut{Value: o.value, PkScript: o.script}, nil
+			}
+			out := tx.TxOut[op.Index]
+			return &wire.TxOut{Value: out.Value, PkScript: out.PkScript}, nil
 		}
-		switch o.spent {
-		case 1:
-			return nil, btcwallet.ErrOutputSpent
-		case 2:
-			return nil, fmt.Errorf("rpc timeout")
-		}
-		return &wire.TxOut{Value: o.value, PkScript: o.script}, nil
 	}
 	return nil, fmt.Errorf("unknown outpoint")
+}
+
+// trueOutpoint is the harness's own ground truth: the outpoint txid:output of the
+// scid (height, tx_index, output index), or "-" if there is no such output.
+func (c *c20Chain) trueOutpoint(scid lnwire.ShortChannelID) string {
+	c.mu.Lock()
+	defer c.mu.Unlock()
+	h := int64(scid.BlockHeight)
+	if !c.known[h] || c.noBlock[h] || c.fetchErr[h] {
+		return "-"
+	}
+	txs := c.buildBlock(h)
+	if int(scid.TxIndex) >= len(txs) || int(scid.TxPosition) >= len(txs[scid.TxIndex].TxOut) {
+		return "-"
+	}
+	return fmt.Sprintf("%s.%d", txs[scid.TxIndex].TxHash().String()[:16], scid.TxPosition)
 }
 
 // program sets what the chain answers for scid.
@@ -278,6 +307,7 @@ type c20 struct {
 	digIDs map[string]int
 	sigs   map[[64]byte]string
 	junk   int
+	shapes []lnwire.ShortChannelID
 	chains map[chainhash.Hash]int
 	skipped int
 }
@@ -755,9 +785,10 @@ func (cs *c20Case) dump() string {
 		if i.Features != nil {
 			feat = c20feat(i.Features.RawFeatureVector)
 		}
-		chans = append(chans, fmt.Sprintf("%d:%d:%d:%d:%d:%d:%d:%s:%s", i.ChannelID,
+		chans = append(chans, fmt.Sprintf("%d:%d:%d:%d:%d:%d:%d:%s:%s:%s.%d", i.ChannelID,
 			h.keyID(i.NodeKey1Bytes), h.keyID(i.NodeKey2Bytes), h.keyID(b1), h.keyID(b2),
-			int64(i.Capacity), c20b2i(i.AuthProof != nil), feat, c20hx(i.ExtraOpaqueData)))
+			int64(i.Capacity), c20b2i(i.AuthProof != nil), feat, c20hx(i.ExtraOpaqueData),
+			i.ChannelPoint.Hash.String()[:16], i.ChannelPoint.Index))
 		pol(i.ChannelID, 0, p1)
 		pol(i.ChannelID, 1, p2)
 		return nil
@@ -942,10 +973,11 @@ func (cs *c20Case) describe(m lnwire.Message, raw []byte) (string, uint64) {
 		}
 		scid := a.ShortChannelID.ToUint64()
 		return fmt.Sprintf("ca chain=%d scid=%d n1=%d n2=%d b1=%d b2=%d feat=%s tap=%d extra=%s "+
-			"bs1=%s bs2=%s ns1=%s ns2=%s dig=%d rv=%s sym=%d",
+			"bs1=%s bs2=%s ns1=%s ns2=%s dig=%d rv=%s sym=%d fop=%s",
 			h.chainID(a.ChainHash), scid, h.keyID(a.NodeID1), h.keyID(a.NodeID2),
 			h.keyID(a.BitcoinKey1), h.keyID(a.BitcoinKey2), c20feat(a.Features), c20isTap(a.Features),
-			c20hx(a.ExtraOpaqueData), terms[0], terms[1], terms[2], terms[3], d, rv, sym), scid
+			c20hx(a.ExtraOpaqueData), terms[0], terms[1], terms[2], terms[3], d, rv, sym,
+			cs.chain.trueOutpoint(a.ShortChannelID)), scid
 
 	case *lnwire.ChannelUpdate1:
 		data := c20Signed(a)
@@ -1465,14 +1497,40 @@ func (h *c20) scid(height uint32, tx uint32, pos uint16) lnwire.ShortChannelID {
 	return lnwire.ShortChannelID{BlockHeight: height, TxIndex: tx, TxPosition: pos}
 }
 
+// stdChan: five channel shapes over three nodes; block height, tx index and
+// output index of each scid are drawn independently from the seed (initShapes).
 func (h *c20) stdChan(i int) c20Chan {
-	switch i % 3 {
-	case 0:
-		return c20Chan{scid: h.scid(500, 1, 0), n1: 0, n2: 1, b1: 3, b2: 4, cap: 1_000_000}
-	case 1:
-		return c20Chan{scid: h.scid(600, 2, 1), n1: 1, n2: 2, b1: 5, b2: 6, cap: 250_000}
+	if i < 0 {
+		i = -i
 	}
-	return c20Chan{scid: h.scid(700, 1, 2), n1: 2, n2: 0, b1: 7, b2: 8, cap: 16_777_215}
+	k := i % 5
+	c := []c20Chan{
+		{n1: 0, n2: 1, b1: 3, b2: 4, cap: 1_000_000},
+		{n1: 1, n2: 2, b1: 5, b2: 6, cap: 250_000},
+		{n1: 2, n2: 0, b1: 7, b2: 8, cap: 16_777_215},
+		{n1: 0, n2: 1, b1: 5, b2: 8, cap: 400_000},
+		{n1: 1, n2: 2, b1: 3, b2: 7, cap: 2_000_000},
+	}[k]
+	c.scid = h.shapes[k]
+	return c
+}
+
+func (h *c20) initShapes() {
+	for k := 0; k < 5; k++ {
+		tx := uint32(1 + h.rng.Intn(3))
+		pos := uint16(h.rng.Intn(4))
+		switch k {
+		case 0: // tx index and output index differ
+			for uint32(pos) == tx {
+				pos = uint16(h.rng.Intn(4))
+			}
+		case 3: // they coincide
+			pos = uint16(tx)
+		case 4: // first transaction of the block
+			tx, pos = 0, uint16(1+h.rng.Intn(3))
+		}
+		h.shapes = append(h.shapes, h.scid(uint32(450+100*k+h.rng.Intn(40)), tx, pos))
+	}
 }
 
 func (cs *c20Case) goodChain(c c20Chan) {
@@ -1530,6 +1588,9 @@ func (h *c20) caseCACorrupt(variant int) {
 // output problem.
 func (h *c20) caseChain(variant int) {
 	c := h.stdChan(variant)
+	if c.scid.TxIndex == 0 {
+		c.scid.TxIndex = 2 // "notx" needs a transaction index that can be out of range
+	}
 	kinds := []string{"spent", "utxoerr", "wrongkeys", "p2wkh", "noout", "notx", "noblk", "fetcherr",
 		"swapped", "taproot-mismatch", "taproot-ok", "onekey"}
 	for _, k := range kinds {
@@ -2040,6 +2101,46 @@ func (h *c20) casePrune(variant int) {
 	})
 }
 
+// caseSibling: multi-output funding transactions.  The scid's own output
+// (height, tx_index, output) and a sibling output of the same transaction
+// (in particular output #tx_index) are programmed independently: spent /
+// unspent, same 2-of-2 script / another script.
+func (h *c20) caseSibling(variant int) {
+	c := h.stdChan(variant)
+	if uint32(c.scid.TxPosition) == c.scid.TxIndex {
+		c.scid.TxPosition = uint16(c.scid.TxIndex + 1)
+	}
+	sib := h.scid(c.scid.BlockHeight, c.scid.TxIndex, uint16(c.scid.TxIndex))
+	other := h.scid(c.scid.BlockHeight, c.scid.TxIndex, c.scid.TxPosition+1)
+	b1, b2 := h.pub(c.b1), h.pub(c.b2)
+	h.runCase(c20CaseOpts{kind: "sibling"}, func(cs *c20Case) {
+		t0 := cs.nowSec() - 500
+		switch variant % 4 {
+		case 0: // own output spent, identical sibling unspent
+			cs.chainSet(c.scid, "utxo", c20ScriptMS, b1, b2, c.cap, 1)
+			cs.chainSet(sib, "utxo", c20ScriptMS, b1, b2, c.cap, 0)
+			cs.chainSet(other, "utxo", c20ScriptMS, b1, b2, c.cap, 0)
+		case 1: // own output fine, siblings spent
+			cs.chainSet(c.scid, "utxo", c20ScriptMS, b1, b2, c.cap, 0)
+			cs.chainSet(sib, "utxo", c20ScriptMS, b1, b2, c.cap+1, 1)
+			cs.chainSet(other, "utxo", c20ScriptMS, b1, b2, c.cap+2, 1)
+		case 2: // own output has another script, sibling carries the 2-of-2
+			cs.chainSet(c.scid, "utxo", c20ScriptOther, b1, b2, c.cap, 0)
+			cs.chainSet(sib, "utxo", c20ScriptMS, b1, b2, c.cap, 0)
+		case 3: // own output fine, siblings are ordinary outputs with other values
+			cs.chainSet(c.scid, "utxo", c20ScriptMS, b1, b2, c.cap, 0)
+			cs.chainSet(sib, "utxo", c20ScriptOther, b1, b2, 12345, 0)
+		}
+		cs.submit(1, h.mkCA(c))
+		cs.submit(2, h.mkCU(c.scid, c20DefaultUpd(t0, 0), c.n1))
+		// the sibling's own scid announced with the same keys
+		sc := c
+		sc.scid = sib
+		cs.submit(3, h.mkCA(sc))
+		cs.submit(4, h.mkCA(c))
+	})
+}
+
 // caseMisc: own-channel announcement, AssumeChannelValid.
 func (h *c20) caseOwn() {
 	h.runCase(c20CaseOpts{kind: "own"}, func(cs *c20Case) {
@@ -2075,10 +2176,11 @@ func (h *c20) caseRandom() {
 	r := h.rng
 	h.runCase(c20CaseOpts{kind: "random"}, func(cs *c20Case) {
 		nch := 1 + r.Intn(3)
+		off := r.Intn(5)
 		chans := make([]c20Chan, nch)
 		cas := make([]*lnwire.ChannelAnnouncement1, nch)
 		for i := range chans {
-			chans[i] = h.stdChan(i)
+			chans[i] = h.stdChan(i + off)
 			switch r.Intn(8) {
 			case 0:
 				cs.chainSet(chans[i].scid, "utxo", c20ScriptMS, h.pub(chans[i].b1), h.pub(chans[i].b2), chans[i].cap, 1)
@@ -2220,6 +2322,7 @@ func TestVerifC20(t *testing.T) {
 		h.keyID(h.pub(i))
 	}
 
+	h.initShapes()
 	h.pf("FACT expiry=%d rebroadcast=%d burst=%d interval=%d", int64(graph.DefaultChannelPruneExpiry/time.Second),
 		int64(c20Rebroadcast/time.Second), DefaultMaxChannelUpdateBurst,
 		int64(DefaultChannelUpdateInterval/time.Second))
@@ -2270,6 +2373,9 @@ func TestVerifC20(t *testing.T) {
 	}
 	for v := 0; v < rep(3, 6); v++ {
 		h.casePrune(v)
+	}
+	for v := 0; v < rep(8, 20); v++ {
+		h.caseSibling(v)
 	}
 	h.caseOwn()
 	for v := 0; v < rep(2, 3); v++ {
